@@ -473,13 +473,27 @@ ForIter(n, items, i, S, parentInfo) ==
                            IF b = "oom" THEN OomS(c[2]) ELSE IF b = "t" THEN WalkSeq(n.body, c[2]) ELSE c[2]
        IN IF ~Ok(S5) THEN S5 ELSE ForIter(n, items, i + 1, PopScope(S5), parentInfo)
 
-UseAll(stmts, S) ==      \* walkChild: only `use` statements of an extending template take effect
+(* walkChild: of the top level of an extending template the use statements, the assignments (set, set-capture) and the imports
+   (import, from) take effect, in order, before the parent is rendered; nothing else is executed *)
+UseAll(stmts, S) ==
   IF stmts = <<>> \/ ~Ok(S) THEN S
-  ELSE IF Head(stmts).k = "use" THEN UseAll(Tail(stmts), Walk(Head(stmts), S))
+  ELSE IF Head(stmts).k \in {"use", "set", "setcap", "import", "from"} THEN UseAll(Tail(stmts), Walk(Head(stmts), S))
   ELSE UseAll(Tail(stmts), S)
+(* registerMacros: the macros written at the top level of a template are known before its body is walked (the later of two
+   definitions in one template counts); a macro already known - from a more derived template - is not replaced *)
+RECURSIVE OwnMacros(_, _, _)
+OwnMacros(stmts, origin, acc) ==
+  IF stmts = <<>> THEN acc
+  ELSE OwnMacros(Tail(stmts), origin,
+                 IF Head(stmts).k = "macro" THEN Bind(acc, Head(stmts).name, [params |-> Head(stmts).params, body |-> Head(stmts).body, origin |-> origin])
+                 ELSE acc)
+PreRegister(stmts, S) ==
+  LET own == OwnMacros(stmts, S.name, EmptyScope) IN
+  [S EXCEPT !.lmacros = [x \in (DOMAIN @) \cup (DOMAIN own) |-> IF x \in DOMAIN @ THEN @[x] ELSE own[x]]]
 
-WalkModule(tpl, S) ==
-  LET stmts == S.tpls[tpl]
+WalkModule(tpl, S00) ==
+  LET stmts == S00.tpls[tpl]
+      S == PreRegister(stmts, S00)
       px == ExtendsOf(stmts) IN
   IF px.k = "none" THEN WalkSeq(stmts, S)
   ELSE IF S.fuel = 0 THEN OomS(S)
@@ -528,7 +542,8 @@ Walk(n, S) ==
                               IF ~Ok(r[2]) THEN r[2] ELSE Write(r[2], r[1].s)
     [] n.k = "block" -> LET p == FirstDef(S, n.name, 1) IN
                         IF p = 0 THEN Fail(S) ELSE RenderBlock(n.name, p, S)
-    [] n.k = "macro" -> [S EXCEPT !.lmacros = Bind(@, n.name, [params |-> n.params, body |-> n.body, origin |-> S.name])]
+    [] n.k = "macro" -> IF n.name \in DOMAIN S.lmacros THEN S
+                        ELSE [S EXCEPT !.lmacros = Bind(@, n.name, [params |-> n.params, body |-> n.body, origin |-> S.name])]
     [] n.k = "extends" -> S
     [] n.k = "use" ->
          LET r == Eval(n.x, S) IN
